@@ -23,6 +23,9 @@ func main() {
 	if id == "c16-child" { // a writer / reader process of C16's process scenarios
 		os.Exit(checks.C16ChildMain())
 	}
+	if id == "c17-boundary" && len(os.Args) > 2 { // a fresh process asking the boundary indices (C17)
+		os.Exit(checks.C17BoundaryChild(os.Args[2], os.Stdout))
+	}
 	tier := "quick"
 	if len(os.Args) > 2 {
 		tier = os.Args[2]
